@@ -168,7 +168,7 @@ def classify(diags, lines, fns):
             # primary span on contract text (a labelled clause): any other span of the diagnostic that lies in real code
             for s2 in spans:
                 m2, _ = meta(s2)
-                if m2 and m2.get("src"):
+                if m2 and m2.get("src") and m2.get("fn") == fn:
                     src = m2["src"]
                     break
         # a failure whose primary span is a ghost line of a proof hint (assert / lemma call inside `proof { }`), as opposed to a
@@ -512,9 +512,21 @@ ASSUMPTIONS = [
 ]
 
 
+def open_closure_fn(sess, f):
+    """the failed obligation lies in a function whose body (on this tree) holds a closure that no contract section annotates: an
+    un-annotated closure is opaque to the verifier (nothing is known about its result), so a postcondition that depends on it
+    cannot be proved whatever the closure computes - such a failure is no verdict about the code"""
+    v = sess.fns.get(f["fn"]) if f.get("fn") else None
+    return bool(v is not None and getattr(v, "open_closures", 0) > 0)
+
+
 def decide(prop, sess, tier):
     known = load_known_findings()
     failed = failed_for(sess, prop)
+    if failed and all(f.get("hint") or open_closure_fn(sess, f) for f in failed) and any(open_closure_fn(sess, f) for f in failed):
+        raise Undecided("the only failed obligations lie in %s, whose body contains a closure without a contract on this tree (its "
+                        "result is unknown to the verifier): undecided, not a violation" %
+                        sorted({str(f["fn"]) for f in failed if open_closure_fn(sess, f)}))
     labelled, fns, implicit = obligations_for(sess, prop)
     if not labelled and not implicit:
         raise Undecided("zero obligations for %s (vacuous)" % prop)
@@ -596,7 +608,7 @@ def selftest_for(prop, repo):
                     ss.verify()
                 except Rejected as r:
                     raise Undecided("rejected: " + r.msgs)
-                f = [x for x in failed_for(ss, prop) if not x.get("hint")]      # hint-only failures are not a verdict (see decide)
+                f = [x for x in failed_for(ss, prop) if not x.get("hint") and not open_closure_fn(ss, x)]   # no verdict (see decide)
                 und = None
                 if not f:
                     import kani_engine
@@ -725,14 +737,24 @@ def main():
         try:
             new, reported, failed = decide(p, sess, tier)
         except Undecided as e:
-            print("UNDECIDED property=%s reason=%s" % (p, e))
-            write_evidence(sess, p, tier, [], [], undecided=str(e), wall=time.time() - t0)
-            rc = max(rc, 2)
-            continue
-        kani = None
-        if tier == "thorough" or p in KANI_QUICK:
+            # the deductive side has no verdict; a leaf function that also has a Kani harness (trim_cr, the policies) can still be
+            # refuted by it - with a concrete input that is replayed on the real crate
+            import kani_engine
+            kani = None
+            if (tier == "thorough" or p in KANI_QUICK) and kani_engine.HARNESSES.get(p):
+                kani = kani_engine.run_for(p, a.repo, tier)
+            if not (kani and kani.get("failed")):
+                print("UNDECIDED property=%s reason=%s" % (p, e))
+                write_evidence(sess, p, tier, [], [], undecided=str(e), wall=time.time() - t0, kani=kani)
+                rc = max(rc, 2)
+                continue
+            new, reported, failed = [], [], []
+        else:
+            kani = None
+        if kani is None and (tier == "thorough" or p in KANI_QUICK):
             import kani_engine
             kani = kani_engine.run_for(p, a.repo, tier)
+        if kani is not None:
             for kf in kani.get("failed", []):
                 new.append(dict(fn=kf["function"], label="kani:" + kf["harness"], tags=[p], message=kf["message"], repo=None,
                                 clause=None, rendered=kf.get("output", "")[-2500:], gen_line=0, counterexample=kf.get("counterexample")))
@@ -779,7 +801,7 @@ def main():
     return rc
 
 
-KANI_QUICK = {"C09", "C12", "C13"}
+KANI_QUICK = {"C01", "C02", "C09", "C12", "C13"}
 
 
 def claimed_props():
